@@ -14,7 +14,7 @@ theorem inv_init (loc : Loc) (lru : Bool) (cap workers : Nat) : Inv loc (State.i
   · cases hc; simp at hm
   · cases hc
 
-theorem inv_step (cfg : Cfg) (loc : Loc) (s : State) (inp : Op × List Bool) (h : Inv loc s) :
+theorem inv_step (cfg : Cfg) (hd : DelOk cfg) (loc : Loc) (s : State) (inp : Op × List Bool) (h : Inv loc s) :
     Inv loc (step cfg loc s inp).1 := by
   unfold step
   split
@@ -23,7 +23,7 @@ theorem inv_step (cfg : Cfg) (loc : Loc) (s : State) (inp : Op × List Bool) (h 
     split
     · exact h
     · rename_i ca hca
-      have hok := handle_ok cfg ⟨s.store, ca, inp.2, []⟩ inp.1
+      have hok := handle_ok cfg hd ⟨s.store, ca, inp.2, []⟩ inp.1
       have hcoh : CohC s.store ca := fun k v hm => (h w ca hca k v hm).1
       intro w' c' hc' k v hm
       simp only [List.length_set] at hc' ⊢
@@ -45,9 +45,9 @@ theorem inv_step (cfg : Cfg) (loc : Loc) (s : State) (inp : Op × List Bool) (h 
           intro e; rw [e, hw] at hold; exact hww (Option.some.inj hold.2).symm
         rw [hok.frame k hk]; exact hold.1
 
-theorem inv_final (cfg : Cfg) (loc : Loc) (ops : List (Op × List Bool)) (s : State) (h : Inv loc s) :
+theorem inv_final (cfg : Cfg) (hd : DelOk cfg) (loc : Loc) (ops : List (Op × List Bool)) (s : State) (h : Inv loc s) :
     Inv loc (final (step cfg loc) s ops) :=
-  final_inv (step cfg loc) (Inv loc) (fun _ => True) (fun s i hs _ => inv_step cfg loc s i hs) ops s h
+  final_inv (step cfg loc) (Inv loc) (fun _ => True) (fun s i hs _ => inv_step cfg hd loc s i hs) ops s h
     (fun _ _ => trivial)
 
 theorem coherent_of_inv {loc : Loc} {s : State} (h : Inv loc s) : Coherent s := by
